@@ -250,9 +250,10 @@ def _run_case(case, ctx):
         # products inexact, so a load or range on a class edge (within 1e-6 of a multiple of max/100) can fall one
         # class off between batch and single run whatever the ratios are
         w = max(abs(v) for v in seq) / 100.0
-        edge_amb = any(abs(l / w - round(l / w)) < 1e-6 for l in
-                       ({abs(v) for v in seq} | {abs(a - b) for a in seq for b in seq}) if l > 0 and l / w < 200.5
-                       and round(l / w) < 200 and abs(l - 100 * w) > 0)
+        # (the largest load itself lies on the top edge of the primary table by construction and is excluded; a load RANGE that
+        # equals the largest load is an interior edge of the secondary table and is not)
+        edge_amb = (any(abs(l / w - round(l / w)) < 1e-6 for l in {abs(v) for v in seq} if l > 0 and abs(l - 100 * w) > 0)
+                    or any(abs(l / w - round(l / w)) < 1e-6 for l in {abs(a - b) for a in seq for b in seq} if l > 0 and round(l / w) < 200))
         nontriv = False
         for p, f in enumerate(factors):
             aps = dict(ap)
